@@ -11,6 +11,7 @@ import (
 	"math/big"
 	"sync"
 	"time"
+	"verifharness/qigen"
 
 	"github.com/btcsuite/btcd/btcec/v2"
 	"github.com/btcsuite/btcd/btcec/v2/schnorr"
@@ -135,7 +136,11 @@ type QiOut struct {
 // supported here — use one input).
 func QiTx(k *Key, ins []UTXORec, outs []QiOut, data []byte) (*types.Transaction, error) {
 	if len(ins) != 1 {
-		return nil, errors.New("sim.QiTx supports exactly one input")
+		ks := make([]*Key, len(ins))
+		for i := range ks {
+			ks[i] = k
+		}
+		return QiTxMulti(ks, ins, outs, data)
 	}
 	var txIns types.TxIns
 	for _, in := range ins {
@@ -153,6 +158,37 @@ func QiTx(k *Key, ins []UTXORec, outs []QiOut, data []byte) (*types.Transaction,
 	unsigned := types.NewTx(inner)
 	digest := Signer().Hash(unsigned)
 	sig, err := schnorr.Sign(k.Bt, digest[:])
+	if err != nil {
+		return nil, err
+	}
+	inner.Signature = sig
+	return types.NewTx(inner), nil
+}
+
+// QiTxMulti builds a Qi transaction with several inputs, input i owned by keys[i] (a key - and an
+// outpoint - may repeat), signed with the MuSig2 aggregate of the listed keys in order, which is
+// what block processing verifies for more than one input.
+func QiTxMulti(keys []*Key, ins []UTXORec, outs []QiOut, data []byte) (*types.Transaction, error) {
+	if len(ins) < 2 || len(keys) != len(ins) {
+		return nil, errors.New("sim.QiTxMulti needs two or more inputs and one key per input")
+	}
+	var txIns types.TxIns
+	signers := make([]*qigen.Key, len(ins))
+	for i, in := range ins {
+		txIns = append(txIns, types.TxIn{PreviousOutPoint: types.OutPoint{TxHash: in.TxHash, Index: in.Index}, PubKey: keys[i].Pub})
+		signers[i] = &qigen.Key{Priv: keys[i].Bt, Pub: keys[i].Pub, Addr: keys[i].Addr.Bytes20()}
+	}
+	var txOuts types.TxOuts
+	for _, o := range outs {
+		lock := o.Lock
+		if lock == nil {
+			lock = big.NewInt(0)
+		}
+		txOuts = append(txOuts, *types.NewTxOut(o.Denomination, o.To.Bytes(), lock))
+	}
+	inner := &types.QiTx{ChainID: ChainID, TxIn: txIns, TxOut: txOuts, Data: data}
+	digest := Signer().Hash(types.NewTx(inner))
+	sig, err := qigen.SignMuSig2(signers, digest)
 	if err != nil {
 		return nil, err
 	}
